@@ -805,7 +805,11 @@ impl Inner {
 
         let peer = counts.peer();
         self.store.for_each(|stream| {
-            if stream.id > last_stream_id && peer.is_local_init(stream.id) {
+            // Streams that have not been sent yet (still waiting for a
+            // concurrency slot) must not be opened after a GOAWAY either.
+            if (stream.id > last_stream_id || stream.is_pending_open)
+                && peer.is_local_init(stream.id)
+            {
                 counts.transition(stream, |counts, stream| {
                     actions.recv.handle_error(&err, &mut *stream);
                     actions.send.handle_error(send_buffer, stream, counts);
